@@ -1694,7 +1694,12 @@ class TCPConnector(BaseConnector):
                 max_field_size=req._response_params["max_field_size"],
                 max_headers=req._response_params["max_headers"],
             )
-            proxy_resp = await proxy_req._send(conn)
+            try:
+                proxy_resp = await proxy_req._send(conn)
+            except BaseException:
+                # Nobody else owns the connection to the proxy yet
+                conn.close()
+                raise
             try:
                 # Setting up the tunnel is a part of connecting to the peer
                 async with ceil_timeout(
